@@ -186,12 +186,15 @@ PLANS = {
         "technique": "deterministic simulation under the Go race detector: the C19/C02/C23/C06 workloads and a shared-state scenario (JSON on both join sides, regexp filters in both branches, LIMIT, injected faults, stalling sink) run in a -race build of the simulator whose gate operations are invisible to the detector; seeded schedules; quiescence-based deadlock oracle",
         "level_text": ("seeded exploration of schedules of real concurrent query execution (join input goroutines, JSON line reader / parser pool / consumer, shared regexp caches) with the race detector as data-race oracle "
                        "and 'quiescent, nothing left to release, Run has not returned' as the deadlock oracle, including queries that stop early because of LIMIT or an injected error; "
-                       "stdin runs in the process tier under -race with uncontrolled scheduling (monitored, not scheduled)"),
+                       "the stdin preview/replay reader and the real binary as a whole run in the process tier under -race with uncontrolled scheduling (monitored, not scheduled)"),
         "level_note": ("trusted: Go race detector (happens-before based, reports only races that occur in explored executions); controller gate operations are bracketed by runtime.RaceDisable/Enable so they add no happens-before edges; "
                        "ristretto cache internals are third-party threads that run for real; goroutines a query leaves behind after Run returned are drained and counted as a probe, not a violation"),
-        "parts": [{"check": "c29", "race": True, "quick": 3200, "thorough": 300000, "env": {"VERIF_SHRINK_BUDGET": "150"}},
+        "parts": [{"check": "c29", "race": True, "quick": 2400, "thorough": 300000, "env": {"VERIF_SHRINK_BUDGET": "150"}},
                   # the same scenarios on several Ps: with one P, sync.Pool hand-offs inside third-party code order the goroutines and can hide a race
-                  {"check": "c29", "tag": ".p4", "race": True, "gomaxprocs": 4, "workers": 4, "offset": 100000000, "quick": 400, "thorough": 40000, "env": {"VERIF_SHRINK_BUDGET": "150"}},
+                  {"check": "c29", "tag": ".p4", "race": True, "gomaxprocs": 4, "workers": 4, "offset": 100000000, "quick": 300, "thorough": 40000, "env": {"VERIF_SHRINK_BUDGET": "150"}},
+                  # the real binary built with the race detector: stdin reader (pipe fed in chunks), file joins, LOOKUP JOIN, subqueries,
+                  # LIMIT and malformed rows; the operating system schedules (monitored, not scheduled), up to 3 executions per scenario
+                  {"check": "c29cli", "kind": "proc", "script": "c29cli.py", "race_binary": True, "workers": 12, "quick": 48, "thorough": 6000, "env": {"VERIF_SHRINK_BUDGET": "0"}},
                   ],
         "rule": "each run draws a scenario family and its workload, knobs and complete gate release order; non-trivial = >=2 input rows/messages; distinct = distinct (shape, schedule) pairs",
         "components": {"real": ["nodes.StreamJoin/OuterJoin input goroutines", "datasources/json reader, worker pool (overlay constructor), consumer", "functions regexp/LIKE caches (ristretto)", "planner", "Limit", "files.OpenLocalFile"],
